@@ -197,76 +197,3 @@ Proof.
     rewrite strchr_none by (apply okc_not_in; [lia|exact Hok]). exact Hp.
 Qed.
 
-(* ------------------------------------------------------------------ *)
-(* the %zone split                                                     *)
-(* ------------------------------------------------------------------ *)
-Lemma cstr_app_stop a r : ~ In 0 a -> cstr (a ++ r) = a ++ cstr r.
-Proof.
-  induction a as [|x a IH]; intros H; [reflexivity|]. simpl.
-  destruct (x =? 0) eqn:E.
-  - apply N.eqb_eq in E. subst. exfalso. apply H. left; reflexivity.
-  - f_equal. apply IH. intros Hi. apply H. right; exact Hi.
-Qed.
-
-Lemma strchr_app_hit a c r : ~ In c a -> strchr (a ++ c :: r) c = Some (length a).
-Proof.
-  induction a as [|x a IH]; intros H; simpl.
-  - rewrite N.eqb_refl. reflexivity.
-  - destruct (x =? c) eqn:E.
-    + apply N.eqb_eq in E. subst. exfalso. apply H. left; reflexivity.
-    + rewrite IH; [reflexivity|]. intros Hi. apply H. right; exact Hi.
-Qed.
-
-Lemma uv_inet_pton6_plain a : ~ In 0 a -> ~ In 37 a -> uv_inet_pton AF_INET6 a = inet_pton6 a.
-Proof.
-  intros H0 H37. unfold uv_inet_pton. cbn [Z.eqb AF_INET AF_INET6 Pos.eqb].
-  rewrite cstr_id by exact H0. rewrite strchr_none by exact H37. reflexivity.
-Qed.
-
-(* uv_inet_pton: the part before '%' is what is parsed, up to 45 characters *)
-Theorem uv_inet_pton6_zone a z :
-  ~ In 0 a -> ~ In 37 a ->
-  uv_inet_pton AF_INET6 (a ++ 37 :: z) =
-  if (45 <? length a)%nat then (UV_EINVAL, []) else inet_pton6 a.
-Proof.
-  intros H0 H37. unfold uv_inet_pton. cbn [Z.eqb AF_INET AF_INET6 Pos.eqb].
-  rewrite cstr_app_stop by exact H0. simpl cstr.
-  rewrite strchr_app_hit by exact H37.
-  destruct (45 <? length a)%nat; [reflexivity|].
-  rewrite firstn_len_app by reflexivity. reflexivity.
-Qed.
-
-(* uv_ip6_addr: correct when the address part has at most 39 characters *)
-Theorem ip6_addr_zone_partial a z port :
-  ~ In 0 a -> ~ In 37 a -> (length a <= 39)%nat ->
-  uv_ip6_addr (a ++ 37 :: z) port = addr_result (inet_pton6 a) port 16.
-Proof.
-  intros H0 H37 Hl. unfold uv_ip6_addr.
-  rewrite cstr_app_stop by exact H0. simpl cstr.
-  rewrite strchr_app_hit by exact H37.
-  assert (E : (40 <=? length a)%nat = false) by (apply Nat.leb_gt; lia). rewrite E.
-  rewrite firstn_len_app by reflexivity.
-  rewrite uv_inet_pton6_plain by assumption. reflexivity.
-Qed.
-
-(* "1111:2222:3333:4444:5555:6666:12.2.3.123" *)
-Definition zone_witness : list N :=
-  [49;49;49;49;58; 50;50;50;50;58; 51;51;51;51;58; 52;52;52;52;58; 53;53;53;53;58;
-   54;54;54;54;58; 49;50;46;50;46;51;46;49;50;51].
-
-Theorem ip6_addr_zone_truncation_refuted :
-  exists a z b port,
-    ~ In 0 a /\ ~ In 37 a /\ inet_pton6 a = (0%Z, b) /\
-    exists b', uv_ip6_addr (a ++ 37 :: z) port = (0%Z, (htons port, b')) /\ b' <> b.
-Proof.
-  exists zone_witness, [108; 111], [17;17;34;34;51;51;68;68;85;85;102;102;12;2;3;123], 80%Z.
-  split; [|split; [|split]].
-  - unfold zone_witness. simpl. intros H.
-    repeat (destruct H as [H|H]; [discriminate|]). exact H.
-  - unfold zone_witness. simpl. intros H.
-    repeat (destruct H as [H|H]; [discriminate|]). exact H.
-  - vm_compute. reflexivity.
-  - exists [17;17;34;34;51;51;68;68;85;85;102;102;12;2;3;12]. split.
-    + vm_compute. reflexivity.
-    + discriminate.
-Qed.
